@@ -18,7 +18,10 @@ on every transition lib_phi(g s) = lib_phi(g) @ lib_phi(s) with the value comput
 state; phi(1) = 1; the Killing form reported by the library is a positive multiple of the spec's
 trace form and is preserved by the adjoint.  o_to_pgl / Isometry.to_sl2: recovers +-g from the
 image of g (determinant one) and is multiplicative up to sign on every transition, also on -X
-and on images of determinant -1.  lie.hom wrappers return what the wrapped map returns.
+and on images of determinant -1.  lie.hom wrappers return what the wrapped map returns.  Storage dtype: every real matrix is also
+passed as an int64 array to the maps that accept integer input (adjoints, realification, Hermitian
+action, SO(3,1), block inclusion) and must give the float64 result; the walks in non-unimodular
+integer matrices make the adjoint images non-integral.
 Arrays of matrices: all states of a walk are stacked into composite arrays of several shapes and
 every map must return the stack of its single-matrix values and satisfy the law array-wise.
 Polynomial-identity grids: sl2_irrep(A B) = sl2_irrep(A) sl2_irrep(B) on a full grid of integer
@@ -39,7 +42,9 @@ INVS = ["HomLaw", "InverseLaw", "GroupElement", "IrrepDet", "So21Laws", "So31Law
         "EmitObs"]
 # maps whose matrix is fixed by the documentation (basis stated) / only the target group is documented
 FORM_ONLY = {"so21": np.diag([-1.0, 1, 1]), "so31": np.diag([-1.0, 1, 1, 1])}
-ARRAY_MAPS_ALWAYS = ("irrep", "so21", "real", "blk", "adgl", "adsl", "herm", "so31")
+# maps that accept integer-dtype input on the unchanged tree (sl2_irrep / sl2_to_so21 refuse it loudly with a casting
+# error, which is not a wrong value): for these the result must not depend on the storage dtype of the matrix
+INT_LEGAL = ("adgl", "adsl", "real", "herm", "so31", "blk")
 
 
 def lie():
@@ -132,6 +137,8 @@ def eval_state(run, grp, names, A, obs, scale, path):
             return vals, ("raised:" + nm, "%s: %s" % (type(ex).__name__, ex))
         vals[nm] = v
         want = cm(obs["img"][nm]) / scale[nm]
+        if nm in ("adgl", "adsl"):
+            want = want / obs["den"]          # non-unimodular groups: the spec carries numerators over det g
         if nm in FORM_ONLY:
             J = FORM_ONLY[nm]
             if v.shape != J.shape or np.iscomplexobj(v):
@@ -149,6 +156,18 @@ def eval_state(run, grp, names, A, obs, scale, path):
             # a float determinant is accurate to about eps * cond(v): tolerance scaled by the conditioning
             if not close(np.linalg.det(v), 1.0, det_tol(v)):
                 return vals, ("determinant_one:" + nm, "det %r" % float(np.linalg.det(v)))
+        if nm.startswith(INT_LEGAL) and not np.iscomplexobj(A):
+            try:
+                with warnings.catch_warnings():
+                    warnings.simplefilter("ignore")
+                    Ai = np.rint(A).astype(np.int64)
+                    vi = num(f(Ai.copy()))
+                    wi = num(wrap()(Ai.copy())) if wrap is not None else vi
+            except Exception as ex:
+                return vals, ("raised:int64:" + nm, "%s: %s" % (type(ex).__name__, ex))
+            if not (close(vi, v) and close(wi, v)):
+                return vals, ("integer_dtype:" + nm, "int64 input gives %r, float64 input gives %r" % (brief(vi), brief(v)))
+            run.evaluations += 1
         if wrap is not None:
             try:
                 with warnings.catch_warnings():
@@ -213,7 +232,7 @@ def walk(run, grp, r):
     scale = tab["scale"]
     names = sorted(scale)
     cplx = grp == "sl2zi"
-    dim = 3 if grp == "gl3z" else 2
+    dim = 3 if grp in ("gl3z", "m3z") else 2
 
     def mat(rec):
         a = cm(rec)
@@ -379,6 +398,15 @@ def arrays(run, grp, names, keys, obs, state_vals, gens, gen_vals, cplx):
             prod = v @ gen_vals[gname][nm]
             if not close(vs, prod):
                 run.violation(key, "array.homomorphism:" + nm, dict(group=grp, map=nm, shape=list(shp), generator=gname))
+            if nm.startswith(INT_LEGAL) and not cplx:
+                try:
+                    with warnings.catch_warnings():
+                        warnings.simplefilter("ignore")
+                        vi = num(f(np.rint(G).astype(np.int64)))
+                    if not close(vi, v):
+                        run.violation(key + ":int64", "array.integer_dtype:" + nm, dict(group=grp, map=nm, shape=list(shp)))
+                except Exception as ex:
+                    run.violation(key + ":int64", "raised:array.int64:" + nm, dict(group=grp, map=nm, shape=list(shp), error="%s: %s" % (type(ex).__name__, ex)))
             run.evaluations += cnt
     run.traces += len(names) * len(shapes)
 
@@ -457,15 +485,16 @@ def run(run, replay=None):
                 "evaluated in the target state and the homomorphism law evaluated with the source state's values); "
                 "distinct_nontrivial = distinct group elements reached + invertible pairs of the identity grids + samples")
     run.assumptions += [
-        "groups: SL(2,Z), GL(2,Z), GL(3,Z), SL(2,Z[i]) with walks of bounded length; the real / complex continuum is "
+        "groups: SL(2,Z), GL(2,Z), GL(3,Z), SL(2,Z[i]) and monoid walks in invertible non-unimodular 2x2 / 3x3 integer "
+        "matrices (adjoint images over the denominator det g) with walks of bounded length; the real / complex continuum is "
         "covered by integer grids and rational / Gaussian samples only",
         "sl2_to_so21 and sl2c_to_so31 are compared through conjugation-invariant data (the documentation names the "
         "target group, not a basis)",
         "o_to_pgl is exercised on single 3x3 matrices (its docstring admits that array input is not implemented)",
     ]
     # (group, MaxLen, MaxIrrep, MaxDet)
-    plan = [("sl2z", 5, 6, 6), ("gl2z", 4, 4, 4), ("gl3z", 3, 2, 2), ("sl2zi", 3, 4, 2)] if quick else \
-           [("sl2z", 6, 6, 6), ("gl2z", 5, 4, 4), ("gl3z", 5, 2, 2), ("sl2zi", 5, 6, 2)]
+    plan = [("sl2z", 5, 6, 6), ("gl2z", 4, 4, 4), ("gl3z", 3, 2, 2), ("sl2zi", 3, 4, 2), ("m2z", 3, 4, 4), ("m3z", 2, 2, 2)] if quick else \
+           [("sl2z", 6, 6, 6), ("gl2z", 5, 4, 4), ("gl3z", 5, 2, 2), ("sl2zi", 5, 6, 2), ("m2z", 4, 4, 4), ("m3z", 3, 2, 2)]
 
     def tlc(p):
         grp, ml, mi, md = p
